@@ -45,7 +45,7 @@ def generate(seed, mode="c18", opts=None):
             ops.append([k, name])
         elif k == "banned":
             # reserved names, through every door: assignment, add() of a named value, add(name=)
-            ops.append(["banned", ch.pick(banned, "bname"), kind, width, ch.pick(["set", "add", "add_named"], "bvia")])
+            ops.append(["banned", ch.pick(banned + ["name"], "bname"), kind, width, ch.pick(["set", "add", "add_named"], "bvia")])
             if ch.chance(1, 4):
                 # a name that attribute access never looks up in the namespace
                 ops.append(["underscore", ch.pick(["_x", "_tmp", "__a"], "uname"), kind, width])
